@@ -474,6 +474,11 @@ func runC03(c *eng.Ctx) {
 		}
 	})
 
+	// ---- per-metric writer state is cleared between metric blocks -----------------------------------------------------------------
+	c.Rule("RESET", mfT+".reset{per-metric state of the block writer}", func() { flusherMetricReset(c) })
+
+	c.Rule("PROV", mgT+".Merge{field readers belong to one metric}", func() { mergeReadersPerMetric(c) })
+
 	// ---- block writer anchors -----------------------------------------------------------------------------------------------------------
 	c.Rule("ANCHOR", mfT+".FlushSeries{startAt}", func() { flusherAnchors(c) })
 
@@ -948,4 +953,145 @@ func seriesMergerOwnRange(c *eng.Ctx) {
 			"what is written for a field is what the encoder produced over the target range; input bytes are passed through only under a test of the contributing block's own slot range",
 			"writes "+p.Desc(a[0])+" without such a test")
 	}
+}
+
+// nestedPath renders the field path below the method receiver that addr denotes ("Level3.isHighKeySetEver").
+func nestedPath(addr ssa.Value) string {
+	var parts []string
+	for d := 0; d < 10 && addr != nil; d++ {
+		switch a := addr.(type) {
+		case *ssa.FieldAddr:
+			if fv := eng.FieldVar(a); fv != nil {
+				parts = append([]string{fv.Name()}, parts...)
+			}
+			addr = a.X
+		case *ssa.IndexAddr:
+			addr = a.X
+		case *ssa.UnOp:
+			addr = a.X
+		case *ssa.Slice:
+			addr = a.X
+		default:
+			// the receiver itself, its spill slot (a method with a deferred closure) or the closure's captured copy
+			t := addr.Type()
+			for k := 0; k < 2; k++ {
+				if pt, ok := t.Underlying().(*types.Pointer); ok {
+					t = pt.Elem()
+				}
+			}
+			if nt, ok := t.(*types.Named); ok && len(parts) > 0 {
+				if st, ok := nt.Underlying().(*types.Struct); ok {
+					for i := 0; i < st.NumFields(); i++ {
+						if st.Field(i).Name() == parts[0] {
+							return strings.Join(parts, ".")
+						}
+					}
+				}
+			}
+			return ""
+		}
+	}
+	return ""
+}
+
+// flusherMetricReset (shared by C03 and C11): the metric block writer is one object reused for every metric of a table. Every
+// sub-field of its Level2/Level3/Level4 state that a method other than reset() writes (store, element store or a mutating
+// method call) must be cleared by reset(), which CommitMetric defers; the exceptions are listed with their reason.
+func flusherMetricReset(c *eng.Ctx) {
+	p := c.P
+	exempt := map[string]string{
+		"Level2.footer":         "scratch buffer, every byte is rewritten by CommitMetric before it is written out",
+		"Level4.scratch":        "scratch buffer for one varint",
+		"Level4.fieldAppendIdx": "per-series cursor, cleared by FlushSeries",
+		"Level4.fieldBuffer":    "per-series buffers, cleared by FlushSeries",
+		"Level3.highKey":        "only read while isHighKeySetEver is true, which reset() clears",
+	}
+	reset := c.Fn(mfT + ".reset")
+	paths := func(fn *ssa.Function) map[string]ssa.Instruction {
+		out := map[string]ssa.Instruction{}
+		for _, b := range fn.Blocks {
+			for _, in := range b.Instrs {
+				var addr ssa.Value
+				switch x := in.(type) {
+				case *ssa.Store:
+					addr = x.Addr
+				case ssa.CallInstruction:
+					if _, mut := mutatingCallee(p, x); !mut {
+						continue
+					}
+					cc := x.Common()
+					if cc.IsInvoke() {
+						addr = cc.Value
+					} else if len(cc.Args) > 0 && cc.StaticCallee() != nil && cc.StaticCallee().Signature.Recv() != nil {
+						addr = cc.Args[0]
+					}
+				}
+				if addr == nil {
+					continue
+				}
+				if pa := nestedPath(addr); strings.HasPrefix(pa, "Level") && strings.Count(pa, ".") >= 1 {
+					pa = strings.Join(strings.Split(pa, ".")[:2], ".")
+					if _, ok := out[pa]; !ok {
+						out[pa] = in
+					}
+				}
+			}
+		}
+		return out
+	}
+	cleared := paths(reset)
+	dirty := map[string]string{}
+	for _, fn := range p.FuncsWithPrefix(mfT + ".") {
+		if fn == reset || topFunc(c, fn) != p.FuncKey(fn) && topFunc(c, fn) == p.FuncKey(reset) {
+			continue
+		}
+		for pa, in := range paths(fn) {
+			if _, ok := dirty[pa]; !ok {
+				dirty[pa] = p.FuncKey(fn) + " at " + p.InstrPos(in)
+			}
+		}
+	}
+	var names []string
+	for pa := range dirty {
+		names = append(names, pa)
+	}
+	sort.Strings(names)
+	n := 0
+	for _, pa := range names {
+		if why, ok := exempt[pa]; ok {
+			c.Check(true, "exempt:"+pa, nil, reset, pa+" need not be cleared per metric: "+why, "")
+			continue
+		}
+		n++
+		_, ok := cleared[pa]
+		c.Check(ok, "cleared:"+pa, nil, reset, "reset() clears "+pa+", which is written while a metric block is built", "written by "+dirty[pa]+"; reset() never writes it")
+	}
+	c.Check(n >= 7, "dirty-paths-found", nil, reset, "the per-metric state paths of the writer are found", fmt.Sprintf("found %d: %v", n, names))
+	cm := c.Fn(mfT + ".CommitMetric")
+	c.Check(len(p.Sites(cm, eng.DeferTo(mfT+".reset"))) == 1, "commit-defers-reset", nil, cm, "CommitMetric defers reset(), so every exit of it clears the per-metric state", "")
+}
+
+// mergeReadersPerMetric (shared by C03 and C11): a field reader keeps the field-id -> position table of the block it was created for
+// (newFieldReader(scanner.fieldIndexes(), …)); Reset only replaces the series entry. The reader slice handed to the series merger must
+// therefore be created inside Merge (one metric), never kept in the merger across metrics whose blocks have other field tables.
+func mergeReadersPerMetric(c *eng.Ctx) {
+	p := c.P
+	f := c.Fn(mgT + ".Merge")
+	calls := c.Some(f, invokeOn("", "merge"), "seriesMerger.merge(ctx, streams, readers)")
+	for i, s := range calls {
+		args := eng.CallArgs(s.Instr.(ssa.CallInstruction))
+		if len(args) < 3 {
+			c.Undecided("seriesMerger.merge has %d arguments", len(args))
+		}
+		rd := args[len(args)-1]
+		local := eng.DependsOn(rd, func(v ssa.Value) bool { _, ok := v.(*ssa.MakeSlice); return ok })
+		field := eng.DependsOn(rd, func(v ssa.Value) bool {
+			fa, ok := v.(*ssa.FieldAddr)
+			return ok && strings.HasPrefix(eng.FieldKeyOfAddr(fa), mgT+".")
+		})
+		c.Check(local && !field, fmt.Sprintf("readers-made-in-Merge[%d]", i), s.Instr, f,
+			"the field readers given to the series merger are allocated in this Merge call", "readers = "+p.Desc(rd))
+	}
+	// and a reader's field table is only set when it is created
+	owner(c, "store to fieldReader.fieldIndexes", eng.StoreField("tsdb/tblstore/metricsdata.fieldReader.fieldIndexes"), []string{"tsdb/tblstore/metricsdata.newFieldReader"}, 1)
 }
